@@ -549,15 +549,15 @@ func (n *nodeSim) checkNodeGenerated(rec *sendRec) {
 
 var _ = fmt.Sprintf
 
-// idReusedAfterRestart: tr is a clock-less local submission, and an earlier incarnation of the
-// node filed another clock-less submission of the same source that is still in the store: the
-// sequence counter restarts at zero with the process, so both get the same bundle ID.
+// idReusedAfterRestart: tr is a clock-less local submission, and another incarnation of the node
+// filed another clock-less submission of the same source: the sequence counter restarts at zero
+// with the process, so both get the same bundle ID and share (and delete) one store record.
 func (n *nodeSim) idReusedAfterRestart(tr *btrack) bool {
 	if tr.via == "deliver" || !tr.bundle.PrimaryBlock.CreationTimestamp.IsZeroTime() {
 		return false
 	}
 	for _, o := range n.tracks {
-		if o != tr && o.via != "deliver" && o.incarnAcc < tr.incarnAcc && o.bundle.PrimaryBlock.CreationTimestamp.IsZeroTime() &&
+		if o != tr && o.via != "deliver" && o.incarnAcc != tr.incarnAcc && o.bundle.PrimaryBlock.CreationTimestamp.IsZeroTime() &&
 			o.bundle.PrimaryBlock.SourceNode == tr.bundle.PrimaryBlock.SourceNode {
 			return true
 		}
